@@ -174,7 +174,9 @@ func runC08_1(c *Ctx) {
 			return st.name[k] == "statusActiveClosed"
 		})},
 		{"socket.Close", find("socket.Close", func(i ssa.Instruction) bool { return IsCallTo(i, p.MethodObj(Root+"/socket", "Socket", "Close")) })},
-		{"postDisconnect", find("postDisconnect", func(i ssa.Instruction) bool { return IsCallTo(i, p.MethodObj(Root, "pluginSingleContainer", "postDisconnect")) })},
+		{"postDisconnect", find("postDisconnect", func(i ssa.Instruction) bool {
+			return IsCallTo(i, p.MethodObj(Root, "pluginSingleContainer", "postDisconnect"))
+		})},
 	}
 	ok := true
 	bad := ""
